@@ -128,6 +128,7 @@ def goValStr (g : GoVal) : String := typeStr g.ty ++ ":" ++ payloadStr g.val
 
 def errStr : Err → String
   | .unsupportedType => "unsupportedType" | .cannotConvert => "cannotConvert" | .outOfRange => "outOfRange"
+  | .missingArgument => "missingArgument"
 
 def panicStr : Panic → String
   | .callArgType => "callArgType" | .convert => "convert" | .accessor => "accessor"
@@ -176,7 +177,7 @@ def handle (line : String) : String :=
       let (tin, tout) := if which == "method"
         then (Generated.C17GoKinds.tableMethod, Generated.C17GoKinds.outTableMethod)
         else (Generated.C17GoKinds.table, Generated.C17GoKinds.outTable)
-      let tr := call (prim hs) tin tout ⟨ps, rs⟩ body as
+      let tr := callVia (if which == "method" then .method else .fn) (prim hs) tin tout ⟨ps, rs⟩ body as
       let recv := match tr.received with
         | none => "-"
         | some gs => ";".intercalate (gs.map goValStr)
